@@ -1,11 +1,13 @@
 #!/bin/bash
 # Confirms every seeded change in a scratch worktree: patch applies, demo passes before / fails after, suite passes with it.
-WT=/tmp/confirm_wt
+# usage: tools/confirm_seeds.sh ["a b" | "c d"] [Cxx-glob]   (appends to seeded/_source/confirm.log; later lines win)
+VARIANTS=${1:-a b}; GLOB=${2:-C*}
+WT=/tmp/confirm_wt_$$
 OUT=/verif/seeded/_source/confirm.log
 git -C /repo worktree remove --force $WT 2>/dev/null; git -C /repo worktree prune
 git -C /repo worktree add -q --detach $WT HEAD || exit 2
-: > $OUT
-for d in /verif/seeded/_source/C*/; do for v in a b; do
+for d in /verif/seeded/_source/$GLOB/; do for v in $VARIANTS; do
+  [ -d $d$v ] || continue
   dir=$d$v; id=$(basename $d)/$v
   patch=$dir/patch.rebased.diff; [ -f $patch ] || patch=$dir/patch.diff
   demo=$dir/demo.rebased.py; [ -f $demo ] || demo=$dir/demo.py; [ -f $demo ] || demo=$dir/test_demo.py
@@ -14,7 +16,8 @@ for d in /verif/seeded/_source/C*/; do for v in a b; do
   PYTHONPATH=$WT timeout 300 /venv/bin/python $demo > /tmp/confirm_demo.out 2>&1; before=$?
   git apply $patch
   PYTHONPATH=$WT timeout 300 /venv/bin/python $demo > /tmp/confirm_demo2.out 2>&1; after=$?
-  suite=$(PYTHONPATH=$WT timeout 900 /venv/bin/python -m pytest -q -p no:cacheprovider --timeout=900 --ignore=tests/integration --deselect tests/test_hypothesis.py::test_job_creation 2>&1 | tail -1)
+  # (private network namespace: two health-check tests bind the fixed port 8080, other runs on this machine may hold it)
+  suite=$(unshare -rn sh -c "ip link set lo up; PYTHONPATH=$WT timeout 900 /venv/bin/python -m pytest -q -p no:cacheprovider --timeout=900 --ignore=tests/integration --deselect tests/test_hypothesis.py::test_job_creation 2>&1 | tail -1")
   echo "$id patch=$(basename $patch) demo_before=$before demo_after=$after suite=[$suite]" >> $OUT
   git checkout -q -- . && git clean -fdq
 done; done
